@@ -22,13 +22,37 @@ TARGET = os.path.join(ROOT, "target")
 ENV = dict(os.environ, CARGO_NET_OFFLINE="true", RUST_BACKTRACE="0")
 
 
+LAST_BUILD_ERR = ""
+
+
+def curated_defs_do_not_compile():
+    """True if the last build_libs() failure is rustc rejecting the derive output for the curated
+    definitions (crate udefs: only definitions of the supported grammar, which compile on the
+    pinned tree) while epserde and its derive crate themselves build."""
+    if "could not compile `udefs`" not in LAST_BUILD_ERR or "error[E" not in LAST_BUILD_ERR:
+        return False
+    p = subprocess.run(["cargo", "build", "-q", "-p", "vcore"], cwd=H, env=ENV, capture_output=True, text=True)
+    return p.returncode == 0
+
+
 def build_libs(profile=None):
     """Build epserde (+derive), vcore and udefs from the current tree; return extern paths."""
+    global LAST_BUILD_ERR
     subprocess.run([sys.executable, os.path.join(ROOT, "gen/universe.py")], check=True, stdout=subprocess.DEVNULL)
     cmd = ["cargo", "build", "-q", "-p", "udefs", "--message-format=json"] + (["--profile", profile] if profile else [])
     p = subprocess.run(cmd, cwd=H, env=ENV, capture_output=True, text=True)
     if p.returncode != 0:
-        sys.stderr.write(p.stderr[-3000:])
+        # with --message-format=json the diagnostics are JSON lines on stdout
+        rendered = []
+        for line in p.stdout.splitlines():
+            try:
+                m = json.loads(line)
+            except Exception:
+                continue
+            if m.get("reason") == "compiler-message" and m["message"].get("level") == "error":
+                rendered.append(m["message"].get("rendered") or m["message"].get("message", ""))
+        LAST_BUILD_ERR = "\n".join(rendered) + "\n" + p.stderr
+        sys.stderr.write(LAST_BUILD_ERR[-3000:])
         sys.stderr.write("\nbuilding epserde/vcore/udefs failed\n")
         return None
     ext = {}
